@@ -1,7 +1,7 @@
 import asyncio
 import logging
 from time import time_ns
-from typing import Dict, Type, Union
+from typing import Dict, Optional, Type, Union
 
 from tickit.core.management.event_router import InverseWiring, Wiring
 from tickit.core.management.schedulers.base import BaseScheduler
@@ -42,11 +42,12 @@ class MasterScheduler(BaseScheduler):
         self.simulation_speed = simulation_speed
         self.running = asyncio.Event()
         self._pending_interrupts: Dict[ComponentID, SimTime] = dict()
+        self.last_time: Optional[int] = None
 
     async def setup(self) -> None:
         """Performs base setup and creates an awaitable flag to indicate new wakeups."""
-        await super().setup()
         self.new_wakeup: asyncio.Event = asyncio.Event()
+        await super().setup()
 
     def add_wakeup(self, component: ComponentID, when: SimTime) -> None:
         """Adds a wakeup to the priority queue and sets an awaitable flag.
@@ -127,10 +128,16 @@ class MasterScheduler(BaseScheduler):
         Args:
             source (ComponentID): The source component which should be updated.
         """
-        when = SimTime(
-            self.ticker.time
-            + int((time_ns() - self.last_time) * self.simulation_speed)
-        )
+        if self.last_time is None:
+            # Raised before the first tick (e.g. replayed on subscription when the
+            # scheduler comes up late): there is no tick to relate it to yet, so it
+            # is due as soon as the simulation starts.
+            when = self._initial_time
+        else:
+            when = SimTime(
+                self.ticker.time
+                + int((time_ns() - self.last_time) * self.simulation_speed)
+            )
         self._pending_interrupts.setdefault(source, when)
         self.add_wakeup(source, when)
 
